@@ -8,10 +8,10 @@ V = os.path.dirname(os.path.dirname(os.path.abspath(__file__)))
 P = {
  "C01": ("proptest generated cases vs. exhaustive definition oracle (all sub-range pairs x Gotoh DP) + path validator + fresh-vs-reused aligner differential",
          "Generated-input search: every reported score is compared with an independent brute-force optimum of the documented clip model, every path is re-scored by a validator, and reuse histories are compared with a fresh aligner. Exploration, not proof: small instances exhaustively per case, larger ones against a cross-validated reference DP.",
-         "Scores/penalties bounded (|v|<=8, lengths<=80) so that i32 arithmetic with the MIN_SCORE sentinel cannot overflow; gap runs split by a clip op are charged two opens (upstream fuzz-target convention)."),
+         "Scores/penalties bounded (|v|<=8) so that i32 arithmetic with the MIN_SCORE sentinel cannot overflow; the definition oracle covers lengths<=80, the large layer (lengths 100..1025) uses the cross-validated O(mn) reference DP; gap runs split by a clip op are charged two opens (upstream fuzz-target convention). Thorough adds a libFuzzer campaign (target align) with the same oracle in the target."),
  "C02": ("proptest generated cases over all banded entry points vs. unbanded optimum (soundness), exactness on full band, budget sentinel, watchdog for termination",
          "Generated-input search with an independent unbanded optimum as upper bound, a path validator, exact equality when no k-mer match exists, explicit MAX_CELLS boundary cases and a two-stage watchdog for the termination clause.",
-         "Same scoring bounds as C01; match paths handed to custom_with_match_path are valid chains (documented caller duty); termination is decided as 'finishes within 10^4 x normal cost, reproducibly'."),
+         "Same scoring bounds as C01; match paths handed to custom_with_match_path are valid chains (documented caller duty); termination is decided as 'finishes within 10^4 x normal cost, reproducibly'; 3 open known findings (KNOWN_FINDINGS.txt) are excluded by input signature and counted. Thorough adds a libFuzzer campaign (target align)."),
  "C03": ("proptest + bounded-exhaustive texts vs. direct suffix comparison / brute-force LCP, SUS; sampled SA differential",
          "Generated texts (repetitive, runs, Fibonacci, multi-sentinel, >255 ranks, LCP>=127) checked against a direct comparison oracle that does not assume which order the implementation picks among sentinels; exhaustive for all short texts over {A,C}.",
          "Texts end with a sentinel that is their smallest symbol; integer texts are dense and end in a unique 0."),
@@ -32,13 +32,13 @@ P = {
          "Patterns non-empty; <=64 symbols for ShiftAnd/BNDM."),
  "C09": ("proptest generated (pattern,text,k,word type,ambiguity) vs. semi-global column DP; textbook Hamming/Levenshtein",
          "Every hit list of Myers (4 word widths, simple and block), Ukkonen and the distance functions compared with an independent DP, with pattern lengths forced to word/block boundaries and k up to usize::MAX for the block version.",
-         "k<=255 for the single-word version as documented; Ukkonen costs in 0..=3."),
+         "k<=255 for the single-word version as documented; Ukkonen costs in 0..=3. Thorough adds a libFuzzer campaign (target myers)."),
  "C10": ("proptest generated searches + query scripts over eager/lazy APIs vs. path validator and DP distances; simple-vs-block differential; reuse histories",
          "Each hit's start/end/path validated against the DP, all API variants compared with each other under random interleavings of next() and *_at(end), one Myers object reused across searches.",
-         "ops vector cleared before path_at (it appends); block version *_at only at reported hit ends (documented)."),
+         "ops vector cleared before path_at (it appends); block version *_at only at reported hit ends (documented). Thorough adds a libFuzzer campaign (target myers)."),
  "C11": ("proptest generated record lists x buffer capacities x read-chunk schedules; round trip, re-wrap/CRLF metamorphic relation, truncation at every offset, arbitrary bytes",
          "Write-read round trips under generated I/O schedules, layout metamorphoses, sniffer agreement, and fault injection (every truncation offset, junk bytes) with an item cap and watchdog for the no-panic/no-loop clause.",
-         "ids without whitespace, descriptions without leading/trailing blanks or line breaks, non-empty ASCII sequences."),
+         "ids without whitespace, descriptions without leading/trailing blanks or line breaks, non-empty ASCII sequences. Thorough adds a libFuzzer campaign (target fastx)."),
  "C12": ("model-based histories of fetch/read/read_iter on a chunked Read+Seek vs. in-memory sequences; truncation faults",
          "Generated FASTA layouts with harness-computed .fai; every read compared with seq[start..stop]; misuse must be Err; truncated files must never yield short or shifted data.",
          "Uniform line width >=1 per record, terminator LF or CRLF."),
@@ -50,7 +50,7 @@ P = {
          "Tolerance: Viterbi 1e-9 relative, likelihood 1e-3 relative (fast-exponential accuracy)."),
  "C15": ("proptest generated operands/lists/grids vs. the same formula in plain f64 with the stated 0.5% bound",
          "Log-space operations and integrators compared with linear-space arithmetic over operands many orders apart, equal operands and formula switch points; conversion round trips; Prob::checked domain.",
-         "Tolerance 0.5% of the largest operand (+1e-200 flush-to-zero), lists <=200 entries."),
+         "Tolerance 0.5% of the largest operand (+1e-200 flush-to-zero); random lists <=200 entries, the large layer uses lists/grids up to 2^20 entries with a compensated f64 sum as the linear-space image."),
  "C16": ("proptest generated queries/histories vs. Needleman-Wunsch; operation list read through derived Serialize; graph invariants after every addition",
          "Linear-graph scores compared with textbook NW, paths re-scored, wide-band banded alignment compared, graph invariants (acyclic, monotone weights, bounded growth, consensus spelled by a path) checked after every addition of a generated history.",
          "gap_open is the per-base penalty (gap_extend unused, as documented); symbol X excluded (built-in wildcard)."),
@@ -106,7 +106,7 @@ def main():
                      "kind_free_text": "Rust harness: proptest TestRunner (fixed seed, shrinking, no persistence) + bounded-exhaustive enumerators, worker processes with watchdog, independent oracles, JSON replay files"}],
         "checks": checks,
         "not_applicable": na,
-        "notes": "Exit codes: 0 held, 1 VIOLATION (with replay path), 2 inconclusive/infrastructure. VERIF_SEED selects the PRNG seed. KNOWN_FINDINGS.txt lists open findings and fixed defects.",
+        "notes": "Exit codes: 0 held, 1 VIOLATION (with replay path), 2 inconclusive/infrastructure. VERIF_SEED selects the PRNG seed. KNOWN_FINDINGS.txt lists open findings and fixed defects. Every check has three layers of sub-checks (small random + bounded-exhaustive; size ladders 255..2^20; value/configuration ladders), see DESIGN.md section 10.",
     }
     json.dump(m, open(f"{V}/MANIFEST.json", "w"), indent=1)
     print("checks:", [c["property_id"] for c in checks])
